@@ -32,6 +32,7 @@ Family ==
        [kind : {"lit", "helper"}, o : 1..Len(Ops), i : 1..N, j : 1..N, l : {0}]
   \cup [kind : {"var"}, o : 1..Len(Ops), i : {x \in 1..N : x % 3 = 1}, j : 1..N, l : {0}]
   \cup (IF Fam = "C09" THEN [kind : {"tri"}, o : 1..Len(Ops), i : 1..NT, j : 1..NT, l : 1..NT] ELSE {})
+  \cup (IF Fam = "C08" THEN {x \in [kind : {"implies"}, o : {1}, i : 1..N, j : 1..N, l : {0}] : StrictEq(V[x.i], V[x.j])} ELSE {})
   \cup (IF Fam = "C08" THEN {[kind |-> "samevar", o |-> o, i |-> i, j |-> i, l |-> 0] : o \in 1..Len(Ops), i \in 1..N} ELSE {})
 
 A(cc) == IF cc.kind = "tri" THEN V[TripleIdx[cc.i]] ELSE V[cc.i]
@@ -44,6 +45,7 @@ RuleOf(cc) ==
     [] cc.kind = "var" -> Op(k, <<VarOf(S_a), VarOf(S_b)>>)
     [] cc.kind = "tri" -> Op(k, <<A(cc), Bv(cc), Cv(cc)>>)
     [] cc.kind = "samevar" -> Op(k, <<VarOf(S_a), VarOf(S_a)>>)
+    [] cc.kind = "implies" -> Op(K_eq, <<A(cc), Bv(cc)>>)        \* whenever === holds, == holds too
     [] cc.kind = "helper" -> Null
 DataOf(cc) ==
   CASE cc.kind = "var" -> Obj(<< <<S_a, A(cc)>>, <<S_b, Bv(cc)>> >>)
@@ -99,6 +101,8 @@ Between ==
     LET o == Outcome(c)
         k == Ops[c.o]
     IN o.ok /\ o.v = Bool(RelOp(k, A(c), Bv(c)) /\ RelOp(k, Bv(c), Cv(c)))
+StrictImpliesLoose ==
+  phase = "done" /\ c.kind = "implies" => Outcome(c).ok /\ Outcome(c).v = True
 SameVarNeverStrictlyEqualContainers ==
   phase = "done" /\ c.kind = "samevar" /\ A(c).t \in {"a", "o"} => Outcome(c).v = Bool(Ops[c.o] = K_sne)
 ExportCases ==
